@@ -142,6 +142,8 @@ claims = {
             "Page images are zeros; SQLite never writes the lock page.", "DESIGN.md 5 (C17)"),
     "C10": ("The real ResumableReader.Read/retry/close and LimitedReadCloser.Read run against a stream and opener that choose, at every call, how many bytes to return and whether to succeed, end early or fail: the bytes handed to the caller are always the file's prefix, io.EOF appears only at the end of a file of known size, every reopen asks for exactly the delivered offset, at most three reconnects happen silently and an exhausted budget is permanent. The real Replica.Restore runs over replicas with a missing, truncated, undersized or unopenable file and an output side where every file-system call may fail: an existing output is refused untouched, damage is an error with no output, the output appears only by renaming a flushed and closed temp file, on error it is absent or the complete correct database, the temp file never survives, success means the correct database, and a failed integrity check removes the output.",
             "CRC-64 detection of flipped bytes is trusted, not decided.", "DESIGN.md 5 (C10)"),
+    "C13": ("The real checkpointIfNeeded, exceedsTruncateThreshold, effectiveTruncatePageN, calcWALSize and isSQLiteBusyError are executed for every configuration in the stated ranges and every pair of WAL sizes before/after a sync round: when no checkpoint is requested the WAL is below the regular threshold (or holds one frame) and was below the emergency threshold; a requested checkpoint leaves one frame; TRUNCATE is requested only at the emergency threshold and first only after PASSIVE failed; a lagging emergency request arrives in the next round; busy PASSIVE checkpoints are not errors and at most two requests are made per round; from the steady state an idle sync requests nothing.",
+            "The checkpoint itself is the E-CKPT contract. Known finding H5b (emergency threshold of one page) is reported as such.", "DESIGN.md 5 (C13), 7 (H5)"),
 }
 na_reasons = {
     "C12": "quantifies over goroutine interleavings and the Go memory model; a sequential SSA symbolic interpreter cannot soundly decide races or deadlocks and no concurrency-aware engine for Go exists in this image (DESIGN.md 6)",
@@ -288,10 +290,28 @@ props["C10"] = {
     "outside": ["bit flips inside an LTX file (CRC-64, trusted)", "more than one kind of damage at once", "RestoreV3's skeleton (C19)"],
 }
 
+props["C13"] = {
+    "level": "model_checking", "validate": 6,
+    "runs": [
+        run("root", "VxC13Bound", {}, {}),
+        run("root", "VxC13Lag", {}, {}),
+        run("root", "VxC13Idle", {}, {}),
+        run("root", "VxC13Busy", {}, {}),
+    ],
+    "assumptions": [
+        "E-CKPT: with no application transaction pinned, a checkpoint issued by litestream backfills the whole WAL and the following _litestream_seq write restarts it, leaving exactly one frame, already copied, with syncedSinceCheckpoint = false (cross-checked against real SQLite while writing DESIGN.md, H5 probe)",
+        "configuration ranges: all 8 page sizes, MinCheckpointPageN 1..131071, TruncatePageN 0..131071 (0 = default 121359), CheckpointInterval in {0, 1, 2 min}, WAL sizes 0..262143 frames, database mtime 0..200 s old",
+        "A-CFG: when the emergency threshold is the lower one the code evaluates it on the size before the round; the request then arrives in the next round (VxC13Lag), which is reported as an observation, not a violation",
+    ],
+    "stubs": ["checkpointWithExecutor replaced by E-CKPT / busy / not-restarted outcomes (source rewrite, same stand-in natively)", "file-system model (database mtime)", "clock model", "prometheus / slog no-op"],
+    "outside": ["that SQLite honours E-CKPT", "the real checkpointWithExecutor (covered by C14 and C01's checkpoint step)", "the Sync chunk loop's termination (C01)"],
+}
+
 rewrites = [
     {"file": "replica.go", "from": "func checkpointV3(", "to": "func checkpointV3Real("},
     {"file": "replica.go", "from": "func (r *Replica) applyLTXFile(", "to": "func (r *Replica) applyLTXFileReal("},
     {"file": "replica.go", "from": "func checkIntegrity(", "to": "func checkIntegrityReal("},
+    {"file": "db.go", "from": "func (db *DB) checkpointWithExecutor(", "to": "func (db *DB) checkpointWithExecutorReal("},
 ]
 
 spec = {"repo": "/repo", "groups": groups, "properties": props, "rewrites": rewrites}
